@@ -11,6 +11,13 @@ from harness.common import use_repo, MachineryError
 use_repo()
 from metapype.model.node import Node, Shift  # noqa: E402
 
+WATCHDOG_S = 3
+
+
+class OperationDidNotTerminate(Exception):
+    """Raised by the harness watchdog, never by the library."""
+
+
 NOSTR = "~"
 FIELDS = ("name", "kids", "ns", "content", "tail", "prefix", "attrs", "extras", "store")
 
@@ -194,13 +201,23 @@ class World:
 
     # ---------------------------------------------------------------- operations
     def apply(self, name, args):
-        """Execute one abstract operation on the real objects.
+        """Execute one abstract operation on the real objects, under a watchdog (a call that does not return within
+        WATCHDOG_S seconds is reported as raising OperationDidNotTerminate instead of hanging the check).
         Returns (ok, ret, exc) ; ok False <=> an exception escaped."""
+        import signal
+
+        def on_alarm(signum, frame):
+            raise OperationDidNotTerminate(f"{name}{args} still running after {WATCHDOG_S}s")
+        old = signal.signal(signal.SIGALRM, on_alarm)
+        signal.alarm(WATCHDOG_S)
         try:
             ret = self._apply(name, args)
             return True, ret, None
         except Exception as e:     # noqa: BLE001 - the harness records whatever escapes
             return False, 0, e
+        finally:
+            signal.alarm(0)
+            signal.signal(signal.SIGALRM, old)
 
     def _apply(self, name, a):
         n = self.n
@@ -231,7 +248,12 @@ class World:
             n(a[0]).remove_namespace(a[1])
             return 0
         if name == "copy":
-            c = n(a[0]).copy()
+            if getattr(self, "copy_via_json", False):
+                # a distinct but id-identical twin: what saving and re-loading a subtree gives (C18)
+                from metapype.model import metapype_io
+                c = metapype_io.from_json(metapype_io.to_json(n(a[0])))
+            else:
+                c = n(a[0]).copy()
             return self.track_tree(c)
         if name == "delete":
             Node.delete_node_instance(n(a[0]).id, children=bool(a[1]))
